@@ -42,6 +42,50 @@ class FakeItem:
         return None
 
 
+class FactsItem:
+    """a duck-typed table described by plain facts (shape, ids, metadata lengths)"""
+
+    def __init__(self, f):
+        self.f = f
+        self.shape = (f["nrows"], f["ncols"])
+
+    def is_empty(self):
+        import numpy as np
+        return not np.asarray(self.f["samp_ids"]).size or not np.asarray(self.f["obs_ids"]).size
+
+    def ids(self, axis="sample"):
+        import numpy as np
+        return np.asarray(self.f["obs_ids"] if axis == "observation" else self.f["samp_ids"])
+
+    def metadata(self, axis="sample"):
+        l = self.f["omd_len"] if axis == "observation" else self.f["smd_len"]
+        return None if l is None else tuple({} for _ in range(l))
+
+
+def gen_facts(rng):
+    n, m = rng.choice([0, 1, 2, 3]), rng.choice([0, 1, 2, 3])
+
+    def ids(k, p):
+        c = rng.random()
+        base = [p + str(i) for i in range(k)]
+        if c < 0.55:
+            return base
+        if c < 0.7:
+            return base + [p + "x"]                    # one too many
+        if c < 0.8:
+            return base[:-1] if base else base         # one too few
+        if c < 0.92 and k >= 2:
+            return base[:-1] + [base[0]]               # right length, a duplicate
+        if k >= 1:
+            return base + [base[0]]                    # too many AND a duplicate
+        return base
+
+    def mdl(k):
+        return rng.choice([None, None, k, k, 0, k + 1, max(k - 1, 0), 7])
+    return {"nrows": n, "ncols": m, "obs_ids": ids(n, "o"), "samp_ids": ids(m, "s"),
+            "omd_len": mdl(n), "smd_len": mdl(m)}
+
+
 class Env:
     def __init__(self):
         import biom.err as E
@@ -333,6 +377,82 @@ def run(ctx):
         t = Table(np.ones((2, 2)), ["a", "b"], ["x", "y"])
         ob = env.observe_check(t, ["empty"], lambda: t.filter([], axis="sample"))
         check_prog(ctx, env, prog, ("real-table", "filter"), obs={"op": "seq", "a": oa, "b": ob})
+    # which kinds fire is decided by Lean (`firing`) from plain facts about the item — NOT by the live test
+    # functions, which are part of the code under test; the live functions are compared with it
+    tests = env.prof._test
+    n_facts = 600 if ctx.quick() else 20000
+    for _ in range(n_facts):
+        f = gen_facts(ctx.rng)
+        trig = ctx.driver.ask({"facts": f})["firing"]
+        item = FactsItem(f)
+        live = sorted(k for k, fn in tests.items() if fn(item))
+        ctx.count("facts-firing=%d" % len(trig))
+        if live != sorted(trig):
+            ctx.fail({"facts": f, "live": live, "expected": trig}, "C20.firing: a registered test does not fire exactly "
+                     "when its structural condition holds", ("facts",))
+            continue
+        if len(trig) > 1 and ctx.rng.random() < 0.7:
+            continue
+        k = ctx.rng.choice(kinds)
+        r = ctx.rng.choice(REACTIONS)
+        env.reset()
+        prog = {"op": "seq", "a": {"op": "seterr", "kw": [["all", r]] if ctx.rng.random() < 0.3 else [[k, r]]},
+                "b": {"op": "check", "trig": trig}}
+        oa = env.run(prog["a"])
+        ob = env.observe_check(item, trig, lambda: env.E.errcheck(item))
+        check_prog(ctx, env, prog, ("facts",), obs={"op": "seq", "a": oa, "b": ob})
+    # real constructor calls described by facts (metadata of every length incl. 0, ids too many/few/duplicated)
+    import numpy as np
+    from biom import Table
+    n_ctor = 300 if ctx.quick() else 8000
+    for _ in range(n_ctor):
+        f = gen_facts(ctx.rng)
+        if f["nrows"] == 0 or f["ncols"] == 0:
+            continue
+        trig = ctx.driver.ask({"facts": f})["firing"]
+        if len(trig) > 1 and ctx.rng.random() < 0.6:
+            continue
+        k = trig[0] if trig else ctx.rng.choice(kinds)
+        r = ctx.rng.choice(REACTIONS)
+        env.reset()
+        prog = {"op": "seq", "a": {"op": "seterr", "kw": [[k, r]]}, "b": {"op": "check", "trig": trig}}
+        oa = env.run(prog["a"])
+        omd = None if f["omd_len"] is None else [{"k": i} for i in range(f["omd_len"])]
+        smd = None if f["smd_len"] is None else [{"k": i} for i in range(f["smd_len"])]
+        holder = {}
+
+        def call():
+            holder["t"] = Table(np.ones((f["nrows"], f["ncols"])), list(f["obs_ids"]), list(f["samp_ids"]), omd, smd)
+        ob = env.observe_check(None, trig, call)
+        if ob["ev"]["ev"] == "called":
+            i, got = env.log[0]
+            ok = hasattr(got, "ids") and [str(x) for x in got.ids()] == f["samp_ids"]
+            fk = [kk for kk in kinds if kk in trig]
+            ob["ev"]["kind"] = fk[0] if (ok and fk) else "?wrong-item"
+        ctx.count("ctor-facts-firing=%d" % len(trig))
+        check_prog(ctx, env, prog, ("ctor-facts",), obs={"op": "seq", "a": oa, "b": ob})
+    # filter call site on tables that are ALREADY empty (built under the default profile, where `empty` is ignored):
+    # every way of keeping everything must still end in errcheck
+    for shape in ((0, 2), (2, 0), (0, 0)):
+        for r in REACTIONS:
+            for how in ("pred-true", "all-ids", "invert-none", "other-axis-pred"):
+                env.reset()
+                obs_ids = ["a", "b"][:shape[0]]
+                samp_ids = ["x", "y"][:shape[1]]
+                import scipy.sparse as sp
+                t = Table(sp.csr_matrix(shape), obs_ids, samp_ids)
+                prog = {"op": "seq", "a": {"op": "seterr", "kw": [["empty", r]]}, "b": {"op": "check", "trig": ["empty"]}}
+                oa = env.run(prog["a"])
+                if how == "pred-true":
+                    call = lambda: t.filter(lambda v, i, m: True, axis="sample")
+                elif how == "all-ids":
+                    call = lambda: t.filter(list(t.ids()), axis="sample")
+                elif how == "invert-none":
+                    call = lambda: t.filter([], axis="observation", invert=True)
+                else:
+                    call = lambda: t.filter(lambda v, i, m: True, axis="observation")
+                ob = env.observe_check(t, ["empty"], call)
+                check_prog(ctx, env, prog, ("real-table", "filter-on-empty", how), obs={"op": "seq", "a": oa, "b": ob})
     # random nested programs
     n = 2500 if ctx.quick() else 120000
     depth_choices = [1, 2, 2, 3, 3, 4] if ctx.quick() else [2, 3, 3, 4, 5, 6, 8]
